@@ -38,6 +38,7 @@ type hcase struct {
 	Parallel  int           `json:"parallel"`
 	Repeat    int           `json:"repeat"`
 	Seed      int64         `json:"seed"`
+	NStart    uint32        `json:"client_nstart,omitempty"`
 }
 
 func sizesStr(m map[string]int) string {
@@ -74,7 +75,7 @@ func genHistory(rnd *rand.Rand, kind string, n int, id *int) []wl.Exchange {
 func runHistory(rec *vr.Rec, c hcase) {
 	var p *wl.Pair
 	if c.Kind == "udp" {
-		p = wl.NewUDPPair(64, nil)
+		p = wl.NewUDPPairN(64, nil, c.NStart)
 	} else {
 		var err error
 		p, err = wl.NewTCPPair(64)
@@ -135,6 +136,17 @@ func runHistory(rec *vr.Rec, c hcase) {
 			return
 		}
 		p.Drain()
+		// before any housekeeping: state that belongs to a CALL (its token continuation, its pending-confirmable entry,
+		// its limiter slot, its per-message-ID lock, its observation) must be gone as soon as every call has returned and
+		// nothing is in flight any more; only caches with a lifetime of their own may wait for the housekeeping
+		pre := p.Cli.VerifSizes()
+		for _, table := range []string{"token_handlers", "mid_handlers", "limiter_entries", "msgid_locks", "observations"} {
+			if n := pre[table]; n != 0 {
+				rec.Violation("C13/"+c.Kind+"/client/outlives-the-call/"+table, fmt.Sprintf("all %d exchanges have returned and nothing is in flight, housekeeping has not run yet (repeat %d): %s", len(c.Exchanges), rep, sizesStr(pre)), c)
+				return
+			}
+		}
+		rec.Count("pre_housekeeping_points_checked", 1)
 		p.Sweep()
 		p.Drain()
 		p.Sweep()
@@ -292,7 +304,12 @@ func TestRun(t *testing.T) {
 	for i := 0; i < vr.Scale(60, 3000); i++ {
 		kind := []string{"udp", "udp", "tcp"}[i%3]
 		n := 10 + rnd.Intn(111)
-		cases = append(cases, hcase{Kind: kind, Exchanges: genHistory(rnd, kind, n, &id), Parallel: 1 + rnd.Intn(8), Repeat: 1 + rnd.Intn(5), Seed: rnd.Int63()})
+		hc := hcase{Kind: kind, Exchanges: genHistory(rnd, kind, n, &id), Parallel: 1 + rnd.Intn(8), Repeat: 1 + rnd.Intn(5), Seed: rnd.Int63()}
+		if kind == "udp" && len(cases)%3 == 1 {
+			hc.NStart = uint32(1 + rnd.Intn(2)) // exchanges queue up behind unacknowledged ones
+			hc.Parallel = 3 + rnd.Intn(6)
+		}
+		cases = append(cases, hc)
 	}
 	// every (kind, outcome) alone, repeated: pinpoints the leaking path
 	for _, kind := range []string{"udp", "tcp"} {
